@@ -539,7 +539,20 @@ fn c08_history<const N: usize>(
                     m_kind
                 );
             }
-            if call.rem != m_rem {
+            // A call that consumed a sentinel may also take in bytes that follow it, as long as
+            // none of them is another sentinel (no result can be skipped that way): they are then
+            // the start of the next frame and the model buffers them too. "What a call consumed
+            // plus the remainder it returns is always the chunk" still holds literally.
+            let absorbed: Option<&[u8]> = match zero {
+                Some(z) if call.rem < m_rem => {
+                    let extra = &window[z + 1..window.len() - call.rem];
+                    if extra.contains(&0) { None } else { Some(extra) }
+                }
+                _ => None,
+            };
+            if let Some(extra) = absorbed {
+                pending.extend_from_slice(extra);
+            } else if call.rem != m_rem {
                 fail!(
                     "conservation",
                     "feed at pos {pos} returned a remainder of {} bytes; consumed + remainder must be the chunk: expected {} bytes after the first sentinel",
@@ -1672,9 +1685,9 @@ fn c09_history<const N: usize>(
                 )
             });
             ncalls += 1;
-            if HOOK && call.idx_after > N {
-                fail!("never-panics", "fill level {} exceeds the capacity {N} after feed at pos {pos}", call.idx_after);
-            }
+            // (no clause on the numeric value of the fill counter: the statement is about panics
+            // and about accesses outside the buffer, which the guarded arena, the canaries and the
+            // Miri tier observe directly; a counter that uses N+1 as a marker breaks nothing)
             if !call.suffix {
                 fail!(
                     "progress",
@@ -1686,13 +1699,20 @@ fn c09_history<const N: usize>(
             let consumed = call.window - call.rem;
             out.bytes += consumed as u64;
             let consumed_has_zero = window[..consumed].contains(&0);
-            if HOOK && consumed_has_zero && call.idx_after != 0 {
-                fail!(
-                    "initial-state-after-zero",
-                    "feed at pos {pos} consumed a zero byte but the accumulator still buffers {} bytes [{}]",
-                    call.idx_after,
-                    hex(&call.buffered_after)
-                );
+            // after a consumed zero byte the accumulator is in its initial state with respect to
+            // that zero: all it may hold is what the same call consumed after its last zero
+            if HOOK && consumed_has_zero {
+                let lz = window[..consumed].iter().rposition(|b| *b == 0).unwrap();
+                let after = &window[lz + 1..consumed];
+                if call.buffered_after != after {
+                    fail!(
+                        "initial-state-after-zero",
+                        "feed at pos {pos} consumed a zero byte but the accumulator then buffers {} bytes [{}]; the bytes it consumed after that zero are [{}]",
+                        call.idx_after,
+                        hex(&call.buffered_after),
+                        hex(after)
+                    );
+                }
             }
             if call.kind == Kind::Consumed && call.rem != 0 {
                 // cannot happen by construction of observe(); kept for clarity
